@@ -1,13 +1,18 @@
-(* C01 — building a project is total.  Statements only; proofs in Proofs/C01Proofs.v.
-   PARTIAL: there is no theorem yet that the whole pipeline neither panics nor runs out of
-   fuel for every input; what is proved: the scanner's control flow is total for every input (no fall-through, no
-   dispatch to a missing state, no pop of an empty return stack), the crash-site inventory regenerated from the source
-   equals the reviewed list, the directive layer never dereferences a missing directive,
-   INCLUDE-name validation is total, macro expansion of the formerly diverging cycles is
-   rejected (Props/C10.v), and the inputs that used to crash no longer do (in the model; the
-   implementation is run on the same inputs on every check). *)
+(* C01 — building a project is total.  Statements only; proofs in Proofs/C01Proofs.v and the files
+   named at each theorem.  PARTIAL: there is no single theorem that the whole pipeline neither
+   panics nor hangs for every input; what is proved, phase by phase, each for every input:
+   the scanner's control flow is total (no fall-through, no dispatch to a missing state, no pop of an
+   empty return stack) and the scanner terminates; the SCANNING PHASE OF A PROJECT TERMINATES (scanner
+   + directive layer + INCLUDE, any file system and include tree, bound computed from the project);
+   the MACRO/PASTE phase terminates (Props/C10.v); the scanned forest is nested per the context
+   table, expansion keeps it so, and on such forests the catalog builder never reaches one of its
+   impossible states; the directive layer never dereferences a missing directive; INCLUDE-name
+   validation is total; the crash-site inventory regenerated from the source is within the reviewed
+   list; the inputs that used to crash no longer do.  Not proved: termination and panic-freedom of
+   the schema dependency (jsight-schema-core: user type compilation, examples - finding F27 lives
+   there) and of encoding/json; real stack depth and wall time are measured by the search. *)
 From JS Require Import Base Bytes Scanner ScanRun Directive Core Entry C01Proofs ScanTotal StackSafe.
-From JS Require ScanTerm.
+From JS Require ScanTerm ScanProjectTerm.
 From JS Require Import Expand Catalog CatalogTotal ExpandPlaced ScanPlaced.
 From JS Require ScannerProg.
 From JS Require IncludeName Inventory InventoryExpected.
@@ -56,6 +61,21 @@ Theorem C01_next_always_returns :
     let '(_, _, tr) := lex_traj data tbl fuel (init_conf ScannerProg.initial_state) in
     Forall (fun c => the_next data tbl c <> RFuel) (init_conf ScannerProg.initial_state :: tr).
 Proof. intros data tbl fuel. apply ScanTerm.next_always_returns. exact ScanTerm.init_inv. Qed.
+
+(* THE SCANNING PHASE OF A PROJECT TERMINATES (Proofs/ScanProjectTerm.v): for every file system,
+   oracle and root file there is a number of steps computed from the project alone - from its
+   number of files and the length of its longest file - within which scanProject ends, with a
+   forest, an error or a panic value, and never by running out of steps; along the way no call it
+   makes (Next(), JApiCore.next, processInclude, the end-of-file handling) runs out of its own
+   fuel.  Inside a file every Next() lowers the scanner's measure; an INCLUDE opens a file that is
+   not suspended, so the nesting is bounded by the number of files; the bound multiplies out. *)
+Theorem C01_scanning_a_project_terminates :
+  forall fs olen root_name root_content fuel,
+    (ScanProjectTerm.project_bound fs root_name root_content <= fuel)%nat ->
+    scan_project ScannerProg.prog_table ScannerProg.is_newline_cond ScannerProg.is_whitespace_cond
+                 fs olen ScannerProg.initial_state fuel
+                 (initial_cstate ScannerProg.initial_state root_name root_content) <> SFuel.
+Proof. exact ScanProjectTerm.scan_project_terminates. Qed.
 
 (* the catalog builder: on every forest whose nesting follows the (regenerated) context table -
    which is what the directive layer produces, Props/C11.v - with the MACROs expanded away, the
@@ -132,3 +152,4 @@ Print Assumptions C01_catalog_builder_is_total_on_every_scanned_project.
 Print Assumptions C01_no_nil_current_directive.
 Print Assumptions C01_include_validation_total.
 Print Assumptions C01_repaired_crashes_stay_repaired.
+Print Assumptions C01_scanning_a_project_terminates.
